@@ -322,7 +322,7 @@ def ob_metis_array():
         lin = o.calc_path_loss(d, num_walls=w)
         for i in range(len(d)):
             s = o.calc_path_loss_dB(float(d[i]), num_walls=int(w[i]))
-            if abs(got[i] - s) > 1e-9 or abs(lin[i] - 10 ** (-s / 10)) > 1e-12:
+            if (not (abs(got[i] - s) <= 1e-9)) or (not (abs(lin[i] - 10 ** (-s / 10)) <= 1e-12)):
                 return {"i": i, "array": float(got[i]), "scalar": float(s), "lin": float(lin[i])}
         return None
     return bounded(gen(), check)
@@ -442,18 +442,18 @@ def ob_native():
         elif kind == "freespace":
             o = m.PathLossFreeSpace(float(rr.uniform(1.5, 5)), float(10 ** rr.uniform(1, 4)))
             for _ in range(case["len"]):
-                if rr.rand() < 0.5:
+                if (not (rr.rand() >= 0.5)):
                     o.n = float(rr.uniform(1.5, 5))
                 else:
                     o.fc = float(10 ** rr.uniform(1, 4))
             Cexp = 10 * o.n * (math.log10(o.fc * 1e6) - 4.377911390697565)
-            if abs(o._C - Cexp) > 1e-9:
+            if (not (abs(o._C - Cexp) <= 1e-9)):
                 return {"invariant": [o._C, Cexp, o.n, o.fc]}
-            if abs(o.n - 2.0) < 10:
+            if (not (abs(o.n - 2.0) >= 10)):
                 o2 = m.PathLossFreeSpace(2.0, o.fc)
                 dd = float(10 ** rr.uniform(-2, 3))
                 fr = 20 * math.log10(dd) + 20 * math.log10(o.fc) + 32.4478
-                if abs(o2._calc_deterministic_path_loss_dB(dd) - fr) > 0.01:
+                if (not (abs(o2._calc_deterministic_path_loss_dB(dd) - fr) <= 0.01)):
                     return {"friis": [o2._calc_deterministic_path_loss_dB(dd), fr]}
         elif kind == "3gpp":
             o = m.PathLoss3GPP1()
@@ -487,29 +487,29 @@ def ob_native():
             try:
                 arr = o.calc_path_loss_dB(d.copy(), **kw)
                 lin = o.calc_path_loss(d.copy(), **kw)
-                if det.min() < 0 and not o.handle_small_distances_bool:
+                if (not (det.min() >= 0)) and not o.handle_small_distances_bool:
                     return {"should have raised": det.tolist()}
                 exp = np.maximum(det, 0) if o.handle_small_distances_bool else det
-                if np.abs(arr - exp).max() > 1e-9:
+                if (not (np.abs(arr - exp).max() <= 1e-9)):
                     return {"array dB": arr.tolist(), "expected": exp.tolist()}
-                if np.abs(lin - 10 ** (-exp / 10)).max() > 1e-12 or lin.min() <= 0 or lin.max() > 1:
+                if (not (np.abs(lin - 10 ** (-exp / 10)).max() <= 1e-12)) or (not (lin.min() > 0)) or (not (lin.max() <= 1)):
                     return {"linear": lin.tolist(), "dB": exp.tolist()}
             except RuntimeError:
-                if not (det.min() < 0 and not o.handle_small_distances_bool):
+                if not ((not (det.min() >= 0)) and not o.handle_small_distances_bool):
                     return {"raised unexpectedly": det.tolist()}
             if kind in ("general", "freespace", "3gpp"):
                 back = o.which_distance_dB(det)
-                if np.abs(back / d - 1).max() > 1e-9:
+                if (not (np.abs(back / d - 1).max() <= 1e-9)):
                     return {"inverse": back.tolist(), "d": d.tolist()}
                 L = rr.uniform(0, 200, 4)
                 again = np.array([o._calc_deterministic_path_loss_dB(float(o.which_distance_dB(float(x)))) for x in L])
-                if np.abs(again - L).max() > 1e-8:
+                if (not (np.abs(again - L).max() <= 1e-8)):
                     return {"PL(which(L))": again.tolist(), "L": L.tolist()}
                 pos = det >= 0
                 if pos.any():
                     o.handle_small_distances_bool = True
                     back2 = o.which_distance(o.calc_path_loss(d[pos]))
-                    if np.abs(back2 / d[pos] - 1).max() > 1e-9:
+                    if (not (np.abs(back2 / d[pos] - 1).max() <= 1e-9)):
                         return {"which_distance(calc_path_loss)": back2.tolist(), "d": d[pos].tolist()}
         return None
     return bounded(gen(), check)
@@ -525,14 +525,14 @@ def ob_native_antenna():
         th = np.arange(-180, 180.25, 0.5)
         g = o.get_antenna_gain(th)
         gs = np.array([o.get_antenna_gain(float(t)) for t in th])
-        if np.abs(g - gs).max() > 1e-12 * g.max():
+        if (not (np.abs(g - gs).max() <= 1e-12 * g.max())):
             return {"array vs scalar": float(np.abs(g - gs).max())}
-        if np.abs(g - g[::-1]).max() > 1e-12 * g.max():
+        if (not (np.abs(g - g[::-1]).max() <= 1e-12 * g.max())):
             return {"asymmetric": True}
-        if g.argmax() != len(th) // 2 or abs(g.max() - o.ant_gain) > 1e-12:
+        if g.argmax() != len(th) // 2 or (not (abs(g.max() - o.ant_gain) <= 1e-12)):
             return {"peak": [float(th[g.argmax()]), float(g.max()), float(o.ant_gain)]}
         floor = o.ant_gain * 10 ** (-o.Am / 10)
-        if g.min() < floor * (1 - 1e-12):
+        if (not (g.min() >= floor * (1 - 1e-12))):
             return {"floor": [float(g.min()), float(floor)]}
         return None
     return bounded([{"sectors": 3}, {"sectors": 6}], check)
